@@ -10,13 +10,14 @@ VARIABLE c
 Cn(parts) == <<"cn", parts>>
 T(x) == <<"ty", x>>
 SrcTypes == { T("/number"), T("/string"), T("/name"), T("/any"), <<"pre", <<"foo">>>>, <<"pre", <<"foobar">>>>, <<"pre", <<"bar">>>>,
-              <<"union", <<T("/number"), T("/string")>>>>, <<"tpair", T("/number"), T("/string")>>, <<"tpair", <<"pre", <<"foo">>>>, T("/number")>>,
+              <<"union", <<T("/number"), T("/string")>>>>, <<"union", <<<<"pre", <<"foo">>>>, <<"pre", <<"bar">>>>>>>>, <<"tpair", T("/number"), T("/string")>>, <<"tpair", <<"pre", <<"foo">>>>, T("/number")>>,
               <<"tlist", T("/number")>>, <<"tlist", <<"pre", <<"foo">>>>>>, <<"tmap", T("/string"), T("/number")>>,
               <<"tstruct", <<<<"a", T("/number"), FALSE>>>>>>, <<"tstruct", <<<<"a", T("/number"), FALSE>>, <<"b", T("/string"), FALSE>>>>>> }
 DstTypes == SrcTypes \cup { <<"pre", <<"foo", "a">>>>, <<"tpair", T("/any"), T("/any")>>, <<"tlist", T("/any")>>, <<"tmap", T("/any"), T("/number")>>,
                             <<"union", <<<<"pre", <<"foo">>>>, T("/number")>>>> }
-Templates == {"copy", "pair_with_string", "fst", "snd", "plus1", "join_other", "list_of", "member", "cons_self", "name_to_string", "struct_get_a", "map_of", "none"}
-Consts == { Num(0), Num(1), Str("a"), Str("x"), Cn(<<"foo", "a">>), Cn(<<"foo", "a", "b">>), Cn(<<"foobar", "x">>), Cn(<<"bar">>), Cn(<<"bar", "b">>),
+Templates == {"copy", "pair_with_string", "fst", "snd", "plus1", "join_other", "list_of", "member", "cons_self", "name_to_string", "struct_get_a", "map_of", "none",
+              "neg_prefix_below", "neg_prefix_eq", "pos_prefix_below", "neg_prefix_other"}
+Consts == { Num(0), Num(1), Str("a"), Str("x"), Cn(<<"foo", "a">>), Cn(<<"foo", "a", "b">>), Cn(<<"foo", "c">>), Cn(<<"foobar", "x">>), Cn(<<"bar">>), Cn(<<"bar", "b">>),
             Pair(Num(1), Str("a")), Pair(Cn(<<"foo", "a">>), Num(1)), Pair(Str("a"), Num(1)),
             List(<<>>), List(<<Num(1), Num(0)>>), List(<<Cn(<<"foo", "a">>)>>), List(<<Str("a")>>),
             MapV(<<<<Str("k"), Num(1)>>>>), MapV(<<<<Num(1), Num(1)>>>>),
@@ -47,7 +48,17 @@ Cases3 ==
      t1 \in RowTypes \cup {T("/any")}, t2 \in RowTypes, tp \in RecTemplates,
      fs \in {{k} : k \in {Num(1), Str("a"), Cn(<<"foo", "a">>), Cn(<<"bar", "b">>), Pair(Num(1), Str("a")), List(<<Num(1), Num(0)>>)}},
      u \in {Num(1), Str("a"), Cn(<<"foo", "a">>), Cn(<<"bar", "b">>), Pair(Num(1), Str("a"))} }
-Cases == IF Family = "rows" THEN Cases2 ELSE IF Family = "recur" THEN Cases3 ELSE Cases1
+\* name-prefix refinement: a positive or negated :match_prefix narrows a variable whose type is a prefix type or a
+\* union of prefix types; the prefix tested is equal to, strictly below, or disjoint from an alternative
+PrefTypes == { <<"union", <<<<"pre", <<"foo">>>>, <<"pre", <<"bar">>>>>>>>, <<"pre", <<"foo">>>>, T("/name"), T("/any"),
+               <<"union", <<<<"pre", <<"foo", "a">>>>, <<"pre", <<"bar">>>>>>>> }
+PrefDst == { <<"pre", <<"bar">>>>, <<"pre", <<"foo">>>>, <<"pre", <<"foo", "a">>>>, <<"union", <<<<"pre", <<"foo">>>>, <<"pre", <<"bar">>>>>>>>, T("/name"), <<"pre", <<"foobar">>>> }
+PrefConsts == { Cn(<<"foo", "a">>), Cn(<<"foo", "a", "b">>), Cn(<<"foo", "c">>), Cn(<<"bar", "b">>), Cn(<<"foobar", "x">>) }
+Cases4 ==
+  {[t1 |-> t1, t1b |-> <<>>, t2 |-> t2, t2b |-> <<>>, tpl |-> tp, facts |-> SetToSeq(fs), dstfact |-> <<>>] :
+     t1 \in PrefTypes, t2 \in PrefDst, tp \in {"copy", "neg_prefix_below", "neg_prefix_eq", "pos_prefix_below", "neg_prefix_other"},
+     fs \in {{k} : k \in PrefConsts} \cup {{k1, k2} : k1 \in PrefConsts, k2 \in PrefConsts} }
+Cases == IF Family = "rows" THEN Cases2 ELSE IF Family = "recur" THEN Cases3 ELSE IF Family = "prefix" THEN Cases4 ELSE Cases1
 Init == c = <<>>
 Pick == c = <<>> /\ c' \in (IF Randomized THEN {RandomElement(Cases)} ELSE Cases)
 Next == Pick
